@@ -17,6 +17,7 @@ func init() {
 		Explanation: "Composition facts of C20 only (the end-to-end claim itself is a simulation property and is not decided): (version.thread) the protocol version under which an operation is accepted is followed hop by hop — REST handler → ProcessOperation (protocol.Get(version)) → queue add (that version's genesis time) → Writer.Add → cutter.Add → queue item → Cut result → process(ops, version) → protocol.Get(version).OperationHandler().PrepareTxnFiles and WriteAnchor(…, version) → observer: ForNamespace(txn.Namespace).Get(txn.ProtocolVersion).TransactionProcessor() → stamped on stored operations → resolution: protocol.Get(op.ProtocolVersion) selects parser and applier; the unpublished operation carries the same genesis time; " +
 			"(stage.copies) every struct hand-off between stages copies every field of its table row (operation → queued operation, queued operation → queue item, operation → unpublished operation, transaction → stored operation); the one field dropped when cutting (QueuedOperation.AnchorOrigin) is a recorded exception; " +
 			"(same.path) the create response, long-form resolution and short-form resolution all obtain their state from OperationApplier.Apply and their document from DocumentTransformer.TransformDocument of the same protocol version object. " +
+			"(anchoring.order) the operations handed to the state machine are sorted chronologically (published and unpublished separately) on every path before they are grouped by commitment, whatever order the store returned them in. " +
 			"Not decided: conformance of resolved state with a reference model over operation sequences, batch boundaries, several live protocol versions.",
 		Run: runC20,
 	})
@@ -223,6 +224,8 @@ func runC20(r *Run) {
 	// (the rest is re-queued), recovery chain then update chain on the way out
 	r.checkPartition(P)
 	r.checkFullThenUpdate(P)
+	// 'in anchoring order': what the reference state machine is fed is the chronologically sorted store content (shared with C02)
+	r.checkSortedBeforeGroup(P)
 
 	// --- same.path
 	if f := r.fn(P, pkgDocHandler, "GetCreateResult"); f != nil {
